@@ -224,7 +224,12 @@ Inductive IOcase :=
 | ParseLongM (data : text) (floats iofs : list text) (canon : list (text * text)) (out : res rtg)
 (* duplicate tier names on opening: names in file order, the names of the opened textgrid *)
 | DupNames (mode : dupmode) (names : list text) (out : res (list text))
-| RefSave (long blanks : bool) (mn mx : option Z) (thr : option (Z * Z)) (tab : numtab) (g : dtg) (out : res text).
+| RefSave (long blanks : bool) (mn mx : option Z) (thr : option (Z * Z)) (tab : numtab) (g : dtg) (out : res text)
+(* a long-form file written by the independent writer in a layout of the family of IO/LongStyleProofs.v
+   (what follows a tier / entry index, the two indentations, what follows numbers / strings), the data
+   it encodes and the text as the reader sees it: only used to evaluate the hypothesis of the
+   whole-file theorem C03_long_family_file on the files actually generated *)
+| LongStyledC (close_t close_e ind_t ind_e trn trs : text) (tab : numtab) (g : dtg) (data : text).
 
 Fixpoint canon_lookup (tab : list (text * text)) (k : text) : text :=
   match tab with
@@ -245,6 +250,7 @@ Definition IOcorr (c : IOcase) : bool :=
       res_eqb rtg_eqb (do g <- parse_text POINT_MARK_UNDOUBLED ie data; Ok (canon_rtg tab g)) out
   | RefRead _ _ _ => true
   | RefSave lg b mn mx th tab g out => res_eqb text_eqb (save_text lg b mn mx th tab g) out
+  | LongStyledC _ _ _ _ _ _ _ _ _ => true
   | DupNames m names out => res_eqb (list_eqb text_eqb) (open_names m names []) out
   | ParseLongM data floats iofs tab out =>
       res_eqb rtg_eqb (do g <- parse_long_chk (fun t => existsb (text_eqb t) floats) (fun t => existsb (text_eqb t) iofs)
